@@ -66,7 +66,7 @@ func neighbours(s *big.Int) []*big.Int {
 
 func main() {
 	run := report.New("C11", "exploration")
-	run.Rule("(A) static: a configured CRL of issuer X lists serials of width 1..20; probes = the same serials under other issuers (different DN, swapped RDN order, name with '_1' suffix, prefix/suffix names) and numeric/byte/decimal neighbours of every listed serial under X; (A2) an indirect CRL whose entries name another certificate issuer; (A3) lists forged by a client certificate of the CA (client extensions {bc+ku, no basicConstraints, no keyUsage, neither} x AKI {absent, client's, CA's key id} x issuer name {CA, client}) served at a CDP shared with other certificates of the CA, which must stay accepted; (B) histories of length <=3 (quick) / <=4 (thorough) over {rejected load: bad signature | parse error after k entries | unhandled critical extension, accepted load A, accepted load B (removes and adds entries), restart} on both backends, after every event every serial ever published is probed; oracle: a probe not in the last accepted list (under its own issuer) must be accepted; non-trivial = case in which a listed control probe was rejected (the CRL really is in force) or a rejected document's serial was probed; distinct = case descriptor")
+	run.Rule("(A) static: a configured CRL of issuer X lists serials of width 1..20; probes = the same serials under other issuers (different DN, swapped RDN order, name with '_1' suffix, prefix/suffix names) and numeric/byte/decimal neighbours of every listed serial under X; (A2) an indirect CRL whose entries name another certificate issuer; (A3) lists forged by a client certificate of the CA (client extensions {bc+ku, no basicConstraints, no keyUsage, neither} x AKI {absent, client's, CA's key id} x issuer name {CA, client}) served at a CDP shared with other certificates of the CA, which must stay accepted; (A4) a configured list replaced by its successor while the validator is down: serials only the superseded list named are accepted once Provision has returned; (B) histories of length <=3 (quick) / <=4 (thorough) over {rejected load: bad signature | parse error after k entries | unhandled critical extension, accepted load A, accepted load B (removes and adds entries), restart} on both backends, after every event every serial ever published is probed; oracle: a probe not in the last accepted list (under its own issuer) must be accepted; non-trivial = case in which a listed control probe was rejected (the CRL really is in force) or a rejected document's serial was probed; distinct = case descriptor")
 	run.Assume("lenient CDP mode, healthy origin, signature mode verify", "names differing only in ASN.1 string type or case are the same name under RFC 5280 and are not used as 'other issuer'")
 	scratch, _ := report.Scratch("C11")
 	sut.QuietStderr(filepath.Join(scratch, "stderr.log"))
@@ -305,6 +305,71 @@ func main() {
 		}
 		chk.Stop()
 		_ = os.RemoveAll(wd)
+	}
+
+	// ------------------------------------------------------------------ (A4) configured list superseded while down
+	// A configured CRL (crl_urls / crl_files) is replaced by its successor while the validator is not
+	// running. When Provision has returned, the serials that only the superseded list named must be
+	// accepted (the configured list in force is the published one), on both backends.
+	for _, backend := range []string{"memory", "disk"} {
+		for _, src := range []string{"crl_urls", "crl_files"} {
+			if !mine() {
+				continue
+			}
+			common := gen.Entries(rng, gen.Opts{N: 2, SerialWidth: 7})
+			onlyA := gen.Entries(rng, gen.Opts{N: 3, SerialWidth: 8})
+			onlyB := gen.Entries(rng, gen.Opts{N: 3, SerialWidth: 9})
+			docA := gen.SpecFor(w.Int, append(append([]crlgen.Entry(nil), common...), onlyA...)).Build(w.Int.Key).DER
+			spB := gen.SpecFor(w.Int, append(append([]crlgen.Entry(nil), common...), onlyB...))
+			spB.Exts = [][]byte{crlgen.AKIKeyID(w.Int.Cert.SubjectKeyId), crlgen.CRLNumberExt(big.NewInt(8))}
+			docB := spB.Build(w.Int.Key).DER
+			path := fmt.Sprintf("/superseded-%s-%s.crl", backend, src)
+			file := filepath.Join(scratch, fmt.Sprintf("superseded-%s.crl", backend))
+			wd := filepath.Join(scratch, "wd-superseded-"+backend+"-"+src)
+			_ = os.MkdirAll(wd, 0755)
+			opts := l2.Opts{WorkDir: wd, Storage: backend, SigMode: "verify", Fetch: "actively", Trusted: []*x509.Certificate{w.Int.Cert}}
+			if src == "crl_urls" {
+				w.CRL.Set(path, origin.Good(docA))
+				opts.CRLUrls = []string{w.CRL.URL(path)}
+			} else {
+				_ = os.WriteFile(file, docA, 0644)
+				opts.CRLFiles = []string{file}
+			}
+			desc := fmt.Sprintf("configured-list-superseded-while-down backend=%s source=%s", backend, src)
+			chk, err := l2.Start(opts)
+			if err != nil {
+				run.Violation("superseded.provision-failed", desc+": "+err.Error(), nil)
+				continue
+			}
+			revA, _ := chk.Ask(w.Leaf(onlyA[0].Serial, nil, nil))
+			chk.Stop()
+			if src == "crl_urls" {
+				w.CRL.Set(path, origin.Good(docB))
+			} else {
+				_ = os.WriteFile(file, docB, 0644)
+			}
+			chk2, err := l2.StartNoWait(opts)
+			if err != nil {
+				run.Violation("superseded.provision-failed-after-restart", desc+": "+err.Error(), nil)
+				continue
+			}
+			bad := false
+			for _, e := range onlyA {
+				rev, err := chk2.Ask(w.Leaf(e.Serial, nil, nil))
+				run.Eval(1)
+				if rev || err != nil {
+					bad = true
+					run.Violation("superseded.entry-of-superseded-configured-list-revokes."+backend+"."+src, fmt.Sprintf("%s: serial %s is only in the list that was replaced while the validator was down, yet it is reported revoked (err=%v) after Provision returned", desc, e.Serial, err), &report.Replay{Case: desc})
+					break
+				}
+			}
+			revB, _ := chk2.Ask(w.Leaf(onlyB[0].Serial, nil, nil))
+			chk2.Stop()
+			_ = os.RemoveAll(wd)
+			if !bad && revA && revB {
+				run.NonTrivial(desc)
+			}
+		}
 	}
 
 	// ------------------------------------------------------------------ (B) histories
